@@ -54,5 +54,38 @@ Definition gets_agree (c : case) : bool :=
 Definition sig_agrees (c : case) : bool :=
   kcode (first_known r0 0%N (c_steps (k_case c))) =? k_sig c.
 
+(* ------------------------------------------------------------------ "exactly once" for EVERY history
+   The clause "runs every registered, non-removed callback exactly once" does not need the domain of
+   C17_Check (fresh names, Replace/Remove of live names only): whatever is called, a name is registered
+   after a matched Register/Replace of it and until a Remove of it, and a nil answer must fire each
+   registered name exactly once (which handler runs under a name registered twice is not judged). *)
+Definition wide_apply (live : list string) (s : step) : list string :=
+  match st_kind s with
+  | KRemove => filter (fun m => negb (String.eqb (st_name s) m)) live
+  | _ => if st_matched s && negb (mem live (st_name s)) then live ++ [st_name s] else live
+  end.
+
+Definition wide_once_ok (live : list string) (f : list (string * N)) : bool :=
+  nodupb (map fst f) && forallb (fun x => mem live (fst x)) f && forallb (fun n => mem (map fst f) n) live.
+
+Fixpoint wide_once (live : list string) (skip : nat) (h : list step) (os : list obs) : bool :=
+  match h with
+  | [] => true
+  | s :: h' =>
+    let live' := wide_apply live s in
+    match skip with
+    | S k => wide_once live' k h' os
+    | O => match os with
+           | [] => true
+           | o :: os' => match o with OOk f => wide_once_ok live' f | _ => true end
+                         && wide_once live' O h' os'
+           end
+    end
+  end.
+
+Definition wide_holds (c : case) : bool :=
+  wide_once [] (c_skip (k_case c)) (c_steps (k_case c)) (c_obs (k_case c)).
+
 Definition check_case (c : case) : N :=
-  code_of (model_agrees (k_case c) && sig_agrees c && gets_agree c) (spec_holds (k_case c)).
+  code_of (model_agrees (k_case c) && sig_agrees c && gets_agree c)
+          (spec_holds (k_case c) && wide_holds c).
